@@ -165,6 +165,26 @@ def run_case(ns, ctx, c):
             fi, fo = init._calculate_fan_in_and_fan_out(T(np.zeros(shp, dtype=np.float32)))
             if (int(fi), int(fo)) != ref_fans(shp):
                 viol.append(V("fans:wrong", f"fans of {shp}: {(int(fi), int(fo))} != {ref_fans(shp)}"))
+        # arguments the initialisers document as invalid must be refused, not answered with some default (reach monitor: never driven)
+        for bad_slope in ("0.2", [0.2], True):
+            n += 1
+            try:
+                g_ = init.calculate_gain("leaky_relu", bad_slope)
+                if bad_slope is True:
+                    pass            # PyTorch refuses bools; a number-like answer for True is not asserted either way
+                else:
+                    viol.append(V("calculate_gain:invalid-slope-answered", f"negative_slope {bad_slope!r} was answered with {g_!r}"))
+            except (ValueError, TypeError):
+                pass
+        for fn_name in ("kaiming_uniform_", "kaiming_normal_"):
+            for bad_mode in ("fan_avg", "FAN_IN", ""):
+                n += 1
+                w_ = T(np.full((4, 6), 7.0, dtype=np.float32))
+                try:
+                    getattr(init, fn_name)(w_, mode=bad_mode)
+                    viol.append(V(f"{fn_name}:invalid-mode-answered", f"mode {bad_mode!r} is neither 'fan_in' nor 'fan_out' but the tensor was filled"))
+                except (ValueError, KeyError, TypeError):
+                    pass
         for shp in ([3], []):
             n += 1
             try:
